@@ -57,11 +57,13 @@ PROPS = {
         bounds='2 overlapping requests (thorough: 3 for the new-client race), every pairing of the four operations, interleaving at transaction granularity (sound given exclusivity, which s_c03_exclusive decides for the SQLite glue), <= 3 retries',
     ),
     'C04': dict(
+        Q=True,
         K=dict(quick=['c04_atomic_ack_n7_k0', 'c04_atomic_ack_n4_rd'], thorough=['c04_atomic_ack_n8_k0', 'c04_atomic_ack_n7_k2', 'c04_atomic_ack_n4_rd', 'c04_atomic_ack_n4_k2']),
         S=dict(quick=['s_exclusive'], thorough=['s_exclusive', 's_writes_newclient', 's_writes_snapshot', 's_writes_addversion']),
         bounds='crash index over the first 14 storage calls of one operation from every REACH-shaped state; TRANSACTION-LEVEL crash model only (file-system crash points inside SQLite are not encodable)',
     ),
     'C05': dict(
+        Q=True,
         H=['c05'],
         K=dict(quick=['c05_fault_n3_k0', 'c05_fault_n3_k1', 'c05_fault_n2_k2', 'c05_fault_n3_k3', 'c05_begin_n3'], thorough=['c05_fault_n5_k0', 'c05_fault_n5_k1', 'c05_fault_n5_k2', 'c05_fault_n5_k3', 'c05_begin_n3', 'c05_fault2_n3_k0', 'c05_fault2_n3_k2', 'c05_fault_n3_k2']),
         S=dict(quick=[], thorough=['s_faults']),
